@@ -138,7 +138,8 @@ func bundleFile(c *core.Ctx) ([]byte, string) {
 	case "more":
 		stated = uint64(n) + uint64(c.PickInt("file.more", 1, 2, 1000, 1<<31))
 	case "huge":
-		stated = c.PickU64("file.huge", 1<<63, 1<<63+1, ^uint64(0), 1<<63-1)
+		// (also: the file's own size with the top bit set, or shifted by 2^32 / 2^62)
+		stated = c.PickU64("file.huge", 1<<63, 1<<63+1, ^uint64(0), 1<<63-1, 1<<63+uint64(n), 1<<62+uint64(n), 1<<32+uint64(n), 1<<63+uint64(n)-1)
 	}
 	if kind == "own-length" && n >= 40 && c.Chance("file.looksSigned", 1, 8) {
 		// an UNSIGNED file (its trailing length is its own size) whose content happens to
